@@ -9,9 +9,11 @@ import (
 )
 
 func init() {
-	Explanations["C19"] = "Decides structural necessary conditions of 'pruning removes only old block bodies and never breaks the node': (R1) the store's prune step only rewrites the Blocks record of the given id as (header, nil body, nil supplement) — it calls the block writer with two nil constants and no other bucket writer — and is invoked only by the Manager's pruning method with ids taken from the best-chain index at heights strictly below its argument, in a loop that stops at the first missing body; (R2) every use of a block body or supplement obtained from the store in Manager methods is guarded: supplement dereferences are nil-guarded (same check as C13.R3) and in the apply/update paths a failed lookup (ok == false) leads to an error return before the block is used. NOT decided: equality of states with an unpruned twin, decoder/encoder agreement for header-only records, the exact minimum reorg index."
+	Explanations["C19"] = "Decides structural necessary conditions of 'pruning removes only old block bodies and never breaks the node': (R1) the store's prune step only rewrites the Blocks record of the given id as (header, nil body, nil supplement) — it calls the block writer with two nil constants and no other bucket writer — and is invoked only by the Manager's pruning method with ids taken from the best-chain index at heights strictly below its argument, in a loop that stops at the first missing body; (R2) every use of a block body or supplement obtained from the store in Manager methods is guarded: supplement dereferences are nil-guarded (same check as C13.R3) and in the apply/update paths a failed lookup (ok == false) leads to an error return before the block is used; (R3) the minimum-reorg-index method stops its walk back from the tip at the first height whose body lookup (Store.Block, not Store.Header) fails; (R4) a reorg failing part-way — e.g. on a pruned body — is rolled back on every path (same check as C01.R3). NOT decided: equality of states with an unpruned twin, decoder/encoder agreement for header-only records, the exact minimum reorg index."
 
 	register(&Rule{ID: "C19.R1", Prop: "C19", Floor: 2, Doc: "prune rewrites only the block record as header-only, for best-chain ids below the given height", Run: c19r1})
+	register(&Rule{ID: "C19.R3", Prop: "C19", Floor: 1, Doc: "the minimum reorg index walks back only while block bodies exist", Run: c19r3})
+	register(&Rule{ID: "C19.R4", Prop: "C19", Floor: 2, Doc: "a reorg that fails on a missing body is rolled back (same check as C01.R3)", Run: c01r3})
 	register(&Rule{ID: "C19.R2", Prop: "C19", Floor: 5, Doc: "bodies/supplements from the store are used only after ok / non-nil tests", Run: c19r2})
 }
 
@@ -173,4 +175,94 @@ func reachOnlyViaFrom(f *ir.Func, from, to *cfgx.Node, edges []*cfgx.Edge) bool 
 		}
 	}
 	return true
+}
+
+// c19r3: the minimum-reorg-index method walks back from the tip while block *bodies* exist.
+func c19r3(c *Ctx) {
+	r := getChainRoles(c.P)
+	header := c.P.Method("chain", "Store", "Header")
+	bestIndex := c.P.Method("chain", "Store", "BestIndex")
+	n := 0
+	for _, f := range r.methods {
+		if !exported(f) || f.Type.Params.NumFields() != 0 || f.Type.Results == nil || f.Type.Results.NumFields() != 1 {
+			continue
+		}
+		if !ir.IsNamed(f.Info().TypeOf(f.Type.Results.List[0].Type), ir.PkgPath("types"), "ChainIndex") {
+			continue
+		}
+		// a loop that looks up BestIndex
+		var loop *ast.ForStmt
+		ir.Walk(f.Body, false, func(x ast.Node) {
+			if fs, ok := x.(*ast.ForStmt); ok && len(f.CallsIn(fs.Body, false)) > 0 {
+				for _, call := range f.CallsIn(fs.Body, false) {
+					if call.Fn == bestIndex.Origin() {
+						loop = fs
+					}
+				}
+			}
+		})
+		if loop == nil {
+			continue
+		}
+		n++
+		g := f.Graph()
+		c.VisitGraph(f)
+		ob := c.Ob(f, "walks-back-while-bodies-exist", loop.Pos())
+		// a Store.Block lookup inside the loop whose ok flag leads to leaving the loop
+		good := false
+		for _, call := range f.CallsIn(loop.Body, false) {
+			if call.Fn != r.storeBlock.Origin() {
+				continue
+			}
+			node := g.NodeContaining(call.Pos())
+			as, ok := node.AST.(*ast.AssignStmt)
+			if !ok || len(as.Lhs) != 3 {
+				continue
+			}
+			okv := f.ObjOf(as.Lhs[2])
+			if okv == nil || okv.Name() == "_" {
+				continue
+			}
+			// some leaf condition on okv has an edge that leaves the loop
+			for _, m := range g.Nodes {
+				if m.Block == nil || m.Block.Cond != m.AST || len(m.Succs) != 2 || f.ObjOf(m.AST.(ast.Expr)) != okv {
+					continue
+				}
+				// the false edge (body missing) must not reach the statement that moves the index back
+				reach := f.ReachableFromEdges([]*cfgx.Edge{m.Succs[1]}, nil)
+				stays := false
+				for x := range reach {
+					if x.AST != nil && containsNode(loop.Body, x.AST) {
+						if _, isBranch := x.AST.(*ast.BranchStmt); !isBranch {
+							// nodes of the loop body reachable after "missing": only allowed via leaving; a reachable assignment means the walk continues
+							for _, w := range f.WritesIn(x.AST, false) {
+								_ = w
+								stays = true
+							}
+						}
+					}
+				}
+				if !stays {
+					good = true
+				}
+			}
+		}
+		usesHeader := false
+		for _, call := range f.CallsIn(loop.Body, false) {
+			if call.Fn == header.Origin() {
+				usesHeader = true
+			}
+		}
+		switch {
+		case good:
+			ob.OK("the walk stops at the first height whose body is missing")
+		case usesHeader:
+			ob.Bad(nil, "the walk-back loop tests Store.Header instead of the block body: pruned blocks keep a header-only record, so the reported minimum reorg index lies below the prune boundary and promised reorgs fail")
+		default:
+			ob.Bad(nil, "the walk-back loop does not stop at the first height whose block body (Store.Block) is missing")
+		}
+	}
+	if n == 0 {
+		ir.Fail("no parameterless Manager method returning a ChainIndex that walks the best-chain index found")
+	}
 }
